@@ -2,6 +2,7 @@ import ComposeVerif.Ops.Common
 import ComposeVerif.Model.Secrets
 import ComposeVerif.Model.SecretsBytes
 import ComposeVerif.Model.SecretsInclude
+import ComposeVerif.Model.SecretsOpts
 /-! line-protocol ops for C20: the path of a secret / config value taken from the environment -/
 open Lean
 namespace CV.Ops.C20
@@ -109,10 +110,25 @@ def flowOp : Handler := fun args =>
     | .panic s => Json.mkObj [("panic", s)]
     | .ok p =>
       -- the section-wise form the theorems speak about must give the same project
+      let p' := match load env pname d with
+        | .ok q => q
+        | _ => { secrets := [], configs := [] }
       let same := match load env pname d with
         | .ok q => objsJson (sortObjs q.secrets) == objsJson (sortObjs p.secrets) && objsJson (sortObjs q.configs) == objsJson (sortObjs p.configs)
         | _ => false
       if !same then bad "Secrets.load ≠ Secrets.loadDict" else
+      -- round 6: the load under options (`Model/SecretsOpts.lean`); with the default options it must be `load`.
+      -- The harness registers, for the keys a model uses, the Go type of the value it carries (identity decoder).
+      let o := getObj args "opts"
+      let opts : LoadOpts := { known := { names := getStrList o "known_ext" }, skipNormalization := getBool o "skip_normalization" }
+      let sameK := match loadK {} env pname d with
+        | .ok q => objsJson q.secrets == objsJson p'.secrets && objsJson q.configs == objsJson p'.configs
+        | _ => false
+      if !sameK then bad "Secrets.loadK {} ≠ Secrets.load" else
+      match loadK opts env pname d with
+      | .err e => Json.mkObj [("err", e)]
+      | .panic s => Json.mkObj [("panic", s)]
+      | .ok p =>
       Json.mkObj [("ok", Json.mkObj [
         ("secrets", objsJson (sortObjs p.secrets)), ("configs", objsJson (sortObjs p.configs)),
         ("yaml0", (render .yaml false p).toJson), ("yaml1", (render .yaml true p).toJson),
